@@ -1,0 +1,50 @@
+package store
+
+import (
+	"context"
+	"fmt"
+	"io"
+
+	"github.com/glebziz/fs_db/internal/model"
+)
+
+// Guarded wraps the store use case and rejects writes made through a transaction
+// that is not (or no longer) registered. Without this check a Set or Delete through
+// a committed or rolled back transaction silently created a version that could never
+// be committed but was visible to ReadUncommitted readers and was never reclaimed.
+type Guarded struct {
+	*UseCase
+}
+
+func NewGuarded(u *UseCase) *Guarded {
+	return &Guarded{
+		UseCase: u,
+	}
+}
+
+func (g *Guarded) Set(ctx context.Context, key string, content io.Reader) error {
+	err := g.checkTx(ctx)
+	if err != nil {
+		return err
+	}
+
+	return g.UseCase.Set(ctx, key, content)
+}
+
+func (g *Guarded) Delete(ctx context.Context, key string) error {
+	err := g.checkTx(ctx)
+	if err != nil {
+		return err
+	}
+
+	return g.UseCase.Delete(ctx, key)
+}
+
+func (g *Guarded) checkTx(ctx context.Context) error {
+	_, err := g.txRepo.Get(ctx, model.GetTxId(ctx))
+	if err != nil {
+		return fmt.Errorf("tx repository get: %w", err)
+	}
+
+	return nil
+}
